@@ -113,7 +113,9 @@ def _case(draw, tier):
         "perm": draw(st.permutations(list(range(k)))),
         "quat": [draw(st.floats(-1, 1)) for _ in range(4)],
         "split": sorted(draw(st.lists(st.integers(0, k - 1), min_size=2, max_size=2, unique=True))) if k >= 4 else None,
-        "history": draw(st.lists(st.tuples(sampled_from(RULES), st.booleans(), sampled_from(["compute", "total"])), max_size=3)),
+        # earlier calls on the grid whose cached areas are judged: other rules and the default one, totals, reads of the
+        # cached areas, and a caller who rescales the array a call handed back (its own result) in place
+        "history": draw(st.lists(st.tuples(sampled_from(RULES + [["triangular", 4], ["triangular", 4]]), sampled_from([True, True, False]), sampled_from(["compute", "total", "scale", "scale", "read-cached"])), max_size=4)),
         "read_cached_first": draw(st.booleans()),
     }
     return c
@@ -280,12 +282,22 @@ def _run_face(case, ctx):
     for (rule, order), latlon, how in [(tuple(h[0]), h[1], h[2]) for h in case["history"]]:
         if how == "total":
             gh.calculate_total_face_area(rule, order)
+        elif how == "read-cached":
+            _ = float(np.asarray(gh.face_areas.values, float)[0])
+        elif how == "scale":
+            got_a, got_j = gh.compute_face_areas(rule, order, latlon) if (rule, order, latlon) != ("triangular", 4, True) else gh.compute_face_areas()
+            if isinstance(got_a, np.ndarray) and got_a.flags.writeable:
+                got_a *= 6371.0**2  # the caller converts its own result to square kilometres
+                ctx.label("history:returned-areas-rescaled-in-place")
         else:
             gh.compute_face_areas(rule, order, latlon)
     ctx.ev("cache_equals_fresh")
     cached = float(np.asarray(gh.face_areas.values, float)[0])
     if abs(cached - a_def) > 1e-12 * max(exact, a_def) + 1e-16:
         bad("cache_equals_fresh", "after-history" if case["history"] else "first-read", "differs", f"face_areas {cached!r} fresh default {a_def!r} history {case['history']}")
+    again = float(np.asarray(gh.compute_face_areas()[0], float)[0])
+    if abs(again - a_def) > 1e-12 * max(exact, a_def) + 1e-16:
+        bad("cache_equals_fresh", "default-call-after-history", "differs", f"compute_face_areas() {again!r}, on a fresh grid {a_def!r}; history {case['history']}")
     gh.compute_face_areas("gaussian", 1)
     cached2 = float(np.asarray(gh.face_areas.values, float)[0])
     if cached2 != cached:
